@@ -648,6 +648,7 @@ def build_scenarios(ctx, kex_names):
         if full:
             add(kex, False, False, {}, rekey=2, kind="rekey-no-marker", once_c=True, once_s=True)
             add(kex, True, True, {}, rekey=2, kind="clean")
+        if n == 0 or (ctx.thorough and (n < 2 or fam == GEX)):
             nk_s, nk_c = st["s2c"].index(21), st["c2s"].index(21)
             # other cipher suites: AEAD (no MAC engine, the Transport passes mac_engine=None), CBC with an
             # encrypt-then-MAC, another CTR/HMAC pair.  Strict peers only for AEAD: GCM does not feed the
